@@ -25,7 +25,7 @@ JAVA_OK_LEAVES = {"int8_t", "uint8_t", "int16_t", "uint16_t", "int32_t", "uint32
 def java_supported(t):
     n, subs = t
     if n in JAVA_OK_LEAVES:
-        return True
+        return not subs
     if n in ("sequence", "set"):
         return java_supported(subs[0])
     if n == "mapping":
